@@ -8,7 +8,8 @@ import Logrange.Model.Selector
 (`LogEventIterator` + `fiterator` with the `fitInRange` re-check; the inclusiveness of the two comparisons is the
 regenerated pair `Generated.C02.fitLower/UpperInclusive`). State as of the fixes 94ffdf8 (`MinTs − 1`), 53beb1f (end
 position from the count the decision used — identical to the chunk's count while the store is quiescent) and b7773f9
-(a backward EOF keeps the position).
+(a backward EOF keeps the position) and 008ef8e (`advanceChunk`: at the end of the last chunk the position is where the chunk
+iterator stopped).
 
 Chunk ids of the journal are the write loop's dense ids × 10 (so that `CId ± 1` of `advanceChunk` names no chunk, as
 with the real time-derived ids); the chunk index uses the dense ids.
@@ -166,9 +167,18 @@ def ensure (s : St) : St × Bool :=
       ({ s with ci := some ci, cst := some st, idx := ci.pos.toNat }, false)
 
 def advance (s : St) : St × Bool :=
+  -- fix 008ef8e: where the chunk iterator stands now that it has run out of its chunk
+  let leftCid := s.cid
+  let leftIdx := match s.ci with
+    | some c => if c.pos ≥ 0 then c.pos.toNat else s.idx
+    | none => s.idx
+  let bk := s.bkwd
   let s := { s with ci := none, cst := none }
   let s := if s.bkwd then { s with cid := s.cid - 1, idx := maxU32 } else { s with cid := s.cid + 1, idx := 0 }
-  ensure s
+  let (s, eof) := ensure s
+  -- no chunk behind the one just left: the end-of-data position is where its iterator stopped
+  if Generated.C02.advanceChunkKeepsIteratorPos && eof && !bk && s.cid == leftCid then ({ s with cid := leftCid, idx := leftIdx }, eof)
+  else (s, eof)
 
 /-- JIterator.Get: (chunk id, index) of the record or none -/
 def itGet (s : St) : St × Option (Nat × Nat) :=
